@@ -388,6 +388,13 @@ func (a *Allocation) packetConnHandler(manager *Manager) {
 			n,
 			srcAddr)
 
+		// A datagram that fills the buffer may have been truncated by the read: drop it rather than relay it altered.
+		if n >= rtpMTU {
+			a.log.Debugf("Read bytes exceeded MTU, packet is possibly truncated")
+
+			continue
+		}
+
 		if channel := a.GetChannelByAddr(srcAddr); channel != nil { // nolint:nestif
 			channelData := &proto.ChannelData{
 				Data:   buffer[:n],
